@@ -340,7 +340,7 @@ class C04(Check):
                 if op.get('nodata'):
                     verdict, info = dtgen.REJECT, {'WrongType', 'ProtocolError', 'BadValue'}
                 else:
-                    verdict, info = dtgen.classify(di, op.get('payload'), previous=current)
+                    verdict, info = dtgen.classify(di, op.get('payload'), previous=current, param=current is not None)
                     if verdict == dtgen.DONTCARE and di['type'] == 'struct' and current is None and not mine:
                         pass
             else:
